@@ -309,6 +309,32 @@ type MonLog struct {
 	OnSnapshotRecord func(shard, replica, index uint64)
 	saveCalls  int64
 	frozen     int32 // power is off: saves that still return are not durable
+	// Witness: replicas of this host that run as witnesses (C18: they store entry
+	// metadata and membership changes only and never a snapshot image)
+	Witness map[nodeKey]bool
+}
+
+// checkWitness: everything handed to the log store of a witness replica is metadata.
+func (m *MonLog) checkWitness(uds []pb.Update) {
+	if len(m.Witness) == 0 || m.OnViolation == nil {
+		return
+	}
+	for _, ud := range uds {
+		if !m.Witness[nodeKey{ud.ShardID, ud.ReplicaID}] {
+			continue
+		}
+		for _, e := range ud.EntriesToSave {
+			if e.Type != pb.ConfigChangeEntry && (e.Type != pb.MetadataEntry || len(e.Cmd) > 0) {
+				m.OnViolation("payload-saved-on-witness", "witness %d/%d on %s is asked to store entry %d of type %s with %d payload bytes",
+					ud.ShardID, ud.ReplicaID, m.host, e.Index, e.Type, len(e.Cmd))
+				break
+			}
+		}
+		if !pb.IsEmptySnapshot(ud.Snapshot) && !ud.Snapshot.Witness && !ud.Snapshot.Dummy {
+			m.OnViolation("full-snapshot-on-witness", "witness %d/%d on %s is asked to record a regular snapshot (index %d, file %q)",
+				ud.ShardID, ud.ReplicaID, m.host, ud.Snapshot.Index, ud.Snapshot.Filepath)
+		}
+	}
 }
 
 func NewMonLog(host string) *MonLog {
@@ -432,6 +458,7 @@ func (m *MonLog) noteSnapshotAttempt(uds []pb.Update) {
 }
 
 func (d *monDB) SaveRaftState(uds []pb.Update, shardID uint64) error {
+	d.mon.checkWitness(uds)
 	d.mon.noteSnapshotAttempt(uds)
 	content := hasContent(uds)
 	if content {
